@@ -1101,7 +1101,8 @@ class Literal(Variable[T]):
     ):
         original_data = data
         data = [data]
-        if not type_:
+        if not type_ and not isinstance(original_data, typing.Iterator):
+            # a one-shot iterator is user data that building an expression must not advance: its type stays unknown
             original_data_lst = make_list(original_data)
             first_value = original_data_lst[0] if len(original_data_lst) > 0 else None
             type_ = type(first_value) if first_value else None
